@@ -332,4 +332,23 @@ def nullInArrayFields : List (String × Json) → Bool
   | (_, v) :: fs => v.nullInArray || nullInArrayFields fs
 end
 
+
+/-- Both members of the `fee_type` oneof present in one object (under either spelling of `basis_points`). -/
+def fieldsAmbiguous (fs : List (String × Json)) : Bool :=
+  (Json.hasKey fs "basis_points" || Json.hasKey fs "basisPoints") && Json.hasKey fs "amount"
+
+mutual
+/-- Does some object of the tree carry both members of the oneof? (`containsAmbiguousFeeType`) -/
+def Json.ambiguous : Json → Bool
+  | .arr items => ambiguousList items
+  | .obj fs => fieldsAmbiguous fs || ambiguousFields fs
+  | _ => false
+def ambiguousList : List Json → Bool
+  | [] => false
+  | x :: xs => x.ambiguous || ambiguousList xs
+def ambiguousFields : List (String × Json) → Bool
+  | [] => false
+  | (_, v) :: fs => v.ambiguous || ambiguousFields fs
+end
+
 end Orbiter
